@@ -682,8 +682,23 @@ func (s *Subscriber) idleHandlerCleaner() {
 			s.handlersMutex.Lock()
 			for pid, hnd := range s.handlers {
 				if now.After(hnd.expires) {
-					delete(s.handlers, pid)
-					log.Debugw("Removed idle handler", "peer", pid)
+					// A handler is idle only if no sync of its publisher is
+					// running or waiting to run. Removing one that is in use
+					// would let a second sync of the same publisher start
+					// with a new handler while the first is still running.
+					if !hnd.asyncMutex.TryLock() {
+						continue
+					}
+					if !hnd.syncMutex.TryLock() {
+						hnd.asyncMutex.Unlock()
+						continue
+					}
+					if hnd.pendingMsg.Load() == nil {
+						delete(s.handlers, pid)
+						log.Debugw("Removed idle handler", "peer", pid)
+					}
+					hnd.syncMutex.Unlock()
+					hnd.asyncMutex.Unlock()
 				}
 			}
 			s.handlersMutex.Unlock()
